@@ -120,7 +120,14 @@ func discharge(o *Obligation, dir string, id int, tier string, timeoutS int) {
 		timeoutS = 4
 	}
 	var results []solveResult
-	first := runSolver(solvers["z3-new"], dir, id, o.Script, timeoutS)
+	// fast path: z3-new alone for a few seconds decides almost everything; what it does not decide quickly goes to the
+	// race below (which includes z3-new again with the full budget), so an obligation that only another configuration
+	// decides does not first wait out z3-new's whole timeout
+	fastS := timeoutS
+	if fastS > 6 {
+		fastS = 6
+	}
+	first := runSolver(solvers["z3-new"], dir, id, o.Script, fastS)
 	results = append(results, first)
 	unsatBy := []string{}
 	if first.status == "unsat" {
@@ -131,6 +138,9 @@ func discharge(o *Obligation, dir string, id int, tier string, timeoutS int) {
 		names := []string{"cvc5", "z3"}
 		if first.status != "unsat" {
 			names = append(names, "cvc5-fmf", "z3-new-s1", "z3-new-a2")
+			if fastS < timeoutS {
+				names = append(names, "z3-new")
+			}
 		} else if tier == "thorough" {
 			names = append(names, "z3-new-a2")
 		}
